@@ -191,8 +191,15 @@ def scenario(st: infra.Stats, graph: str, placement: str, source: str):
     import dataclasses
     from apischema.metadata import conversion as conv_md
 
+    probe_calls: list = []
+
+    def probe(v):
+        probe_calls.append(v)
+
+    from apischema.metadata import validators as validators_md
+
     if placement == "field":
-        H = dataclasses.make_dataclass("Holder", [("k", K, field_with(conv_md(deserialization=conv_d, serialization=conv_s)))])
+        H = dataclasses.make_dataclass("Holder", [("k", K, field_with(conv_md(deserialization=conv_d, serialization=conv_s) | validators_md(probe)))])
         ctxK = {"field": (H, None, lambda d: [{"k": d}, {}]), "list_of_field": (list[H], None, lambda d: [[{"k": d}]])}  # type: ignore
         ctxS = mod.contexts(SRC, lambda v: v)
     else:
@@ -207,7 +214,9 @@ def scenario(st: infra.Stats, graph: str, placement: str, source: str):
             for d in embed(d0):
                 base = {"graph": graph, "placement": placement, "source": source, "context": cname, "datum": repr(d)}
                 st.case(graph, placement, source, cname, repr(d), "deser")
-                got = run(lambda: deserialize(tK, d, **dkw))
+                del probe_calls[:]
+                got = run(lambda: deserialize(tK, d, **dkw) if placement == "field" else deserialize(tK, d, validators=[probe], **dkw))
+                calls = list(probe_calls)
                 ref = run(lambda: deserialize(tS, d))
                 if placement == "dynamic" and in_object:
                     # locality: a dynamic conversion does not reach into fields of nested objects
@@ -232,6 +241,13 @@ def scenario(st: infra.Stats, graph: str, placement: str, source: str):
                     st.violation(dict(base, signature={"kind": "errors_differ", "side": "deser", "graph": graph, "placement": placement, "context": cname}, what=f"errors {got[1]} but C[S] gives {exp[1]}"[:400]))
                 elif got[0] == "invalid" and exp[1] is None and expected_msg and not any(expected_msg in m for _, m in got[1]):
                     st.violation(dict(base, signature={"kind": "value_error_message", "graph": graph}, what=f"ValueError message not reported: {got[1]}"[:300]))
+                # validators given along with the conversion (validators= of the call / validators metadata of the field)
+                # validate the converted value, once
+                if got[0] == "ok":
+                    holders = got[1] if placement != "field" else ([got[1]] if cname == "field" else list(got[1]))
+                    want = [got[1]] if placement != "field" else [h.k for h in holders]
+                    if len(calls) != len(want) or not all(same(a, b) for a, b in zip(calls, want)):
+                        st.violation(dict(base, signature={"kind": "validators_with_conversion", "graph": graph, "placement": placement, "context": cname}, what=f"validators given with the conversion were called with {calls!r}, expected {want!r}"[:300]))
                 # serialization of the obtained value
                 if got[0] == "ok":
                     st.case(graph, placement, source, cname, repr(d), "ser")
